@@ -6,9 +6,9 @@ package main
 
 import (
 	"fmt"
-	"math"
 	"go/token"
 	"go/types"
+	"math"
 	"strconv"
 	"strings"
 
@@ -43,28 +43,28 @@ var intrinsicMiss = map[*ssa.Function]bool{}
 // in Go inside the harness package (executed symbolically like any other code).
 // The receiver is passed as the first argument.
 var redirects = map[string]string{
-	"(*github.com/nats-io/nats.go.Conn).Status":               "verifNatsStatus",
-	"(*github.com/nats-io/nats.go.Conn).Publish":              "verifNatsPublish",
-	"(*github.com/nats-io/nats.go.Conn).PublishRequest":       "verifNatsPublishRequest",
-	"(*github.com/nats-io/nats.go.Conn).Subscribe":            "verifNatsSubscribe",
-	"(*github.com/nats-io/nats.go.Conn).QueueSubscribe":       "verifNatsQueueSubscribe",
-	"(*github.com/nats-io/nats.go.Conn).Flush":                "verifNatsFlush",
-	"(*github.com/nats-io/nats.go.Conn).FlushTimeout":         "verifNatsFlushTimeout",
-	"(*github.com/nats-io/nats.go.Conn).Barrier":              "verifNatsBarrier",
-	"(*github.com/nats-io/nats.go.Conn).NewRespInbox":         "verifNatsNewInbox",
-	"github.com/nats-io/nats.go.NewInbox":                     "verifNatsNewInbox0",
-	"(*github.com/nats-io/nats.go.Subscription).Unsubscribe":  "verifNatsUnsubscribe",
-	"(*github.com/nats-io/nats.go.Subscription).Drain":        "verifNatsDrain",
-	"(*github.com/nats-io/nats.go.Subscription).IsValid":      "verifNatsSubIsValid",
-	"(*github.com/go-stomp/stomp.Conn).Ack":                   "verifStompAck",
-	"(*github.com/go-stomp/stomp.Conn).Nack":                  "verifStompNack",
-	"(*github.com/go-stomp/stomp.Conn).Send":                  "verifStompSend",
-	"(*github.com/go-stomp/stomp.Conn).Subscribe":             "verifStompSubscribe",
-	"(*github.com/go-stomp/stomp.Subscription).Unsubscribe":   "verifStompUnsubscribe",
-	"(*github.com/go-stomp/stomp.Subscription).Active":        "verifStompActive",
-	"github.com/nats-io/nuid.Next":                            "verifNuidNext",
-	"(*net/http.Client).Do":                                   "verifHTTPDo",
-	"github.com/Workiva/frugal/compiler/parser.ParseFrugal":   "verifParseFrugal",
+	"(*github.com/nats-io/nats.go.Conn).Status":              "verifNatsStatus",
+	"(*github.com/nats-io/nats.go.Conn).Publish":             "verifNatsPublish",
+	"(*github.com/nats-io/nats.go.Conn).PublishRequest":      "verifNatsPublishRequest",
+	"(*github.com/nats-io/nats.go.Conn).Subscribe":           "verifNatsSubscribe",
+	"(*github.com/nats-io/nats.go.Conn).QueueSubscribe":      "verifNatsQueueSubscribe",
+	"(*github.com/nats-io/nats.go.Conn).Flush":               "verifNatsFlush",
+	"(*github.com/nats-io/nats.go.Conn).FlushTimeout":        "verifNatsFlushTimeout",
+	"(*github.com/nats-io/nats.go.Conn).Barrier":             "verifNatsBarrier",
+	"(*github.com/nats-io/nats.go.Conn).NewRespInbox":        "verifNatsNewInbox",
+	"github.com/nats-io/nats.go.NewInbox":                    "verifNatsNewInbox0",
+	"(*github.com/nats-io/nats.go.Subscription).Unsubscribe": "verifNatsUnsubscribe",
+	"(*github.com/nats-io/nats.go.Subscription).Drain":       "verifNatsDrain",
+	"(*github.com/nats-io/nats.go.Subscription).IsValid":     "verifNatsSubIsValid",
+	"(*github.com/go-stomp/stomp.Conn).Ack":                  "verifStompAck",
+	"(*github.com/go-stomp/stomp.Conn).Nack":                 "verifStompNack",
+	"(*github.com/go-stomp/stomp.Conn).Send":                 "verifStompSend",
+	"(*github.com/go-stomp/stomp.Conn).Subscribe":            "verifStompSubscribe",
+	"(*github.com/go-stomp/stomp.Subscription).Unsubscribe":  "verifStompUnsubscribe",
+	"(*github.com/go-stomp/stomp.Subscription).Active":       "verifStompActive",
+	"github.com/nats-io/nuid.Next":                           "verifNuidNext",
+	"(*net/http.Client).Do":                                  "verifHTTPDo",
+	"github.com/Workiva/frugal/compiler/parser.ParseFrugal":  "verifParseFrugal",
 }
 
 // packages all of whose functions are no-ops returning zero values
@@ -345,8 +345,14 @@ func toGoString(v value) string {
 // sync, atomic
 
 func init() {
-	intrinsics["(*sync.Mutex).Lock"] = func(fr *frame, a []value) value { mutexLock(ptrArg(a[0]), "Mutex.Lock in "+shortName(callerName(fr))); return nil }
-	intrinsics["(*sync.Mutex).Unlock"] = func(fr *frame, a []value) value { mutexUnlock(ptrArg(a[0]), "Mutex.Unlock in "+shortName(callerName(fr))); return nil }
+	intrinsics["(*sync.Mutex).Lock"] = func(fr *frame, a []value) value {
+		mutexLock(ptrArg(a[0]), "Mutex.Lock in "+shortName(callerName(fr)))
+		return nil
+	}
+	intrinsics["(*sync.Mutex).Unlock"] = func(fr *frame, a []value) value {
+		mutexUnlock(ptrArg(a[0]), "Mutex.Unlock in "+shortName(callerName(fr)))
+		return nil
+	}
 	intrinsics["(*sync.Mutex).TryLock"] = func(fr *frame, a []value) value {
 		m := R.mutex(ptrArg(a[0]))
 		schedPoint("TryLock")
@@ -356,10 +362,22 @@ func init() {
 		m.locked = true
 		return true
 	}
-	intrinsics["(*sync.RWMutex).Lock"] = func(fr *frame, a []value) value { mutexLock(ptrArg(a[0]), "RWMutex.Lock in "+shortName(callerName(fr))); return nil }
-	intrinsics["(*sync.RWMutex).Unlock"] = func(fr *frame, a []value) value { mutexUnlock(ptrArg(a[0]), "RWMutex.Unlock in "+shortName(callerName(fr))); return nil }
-	intrinsics["(*sync.RWMutex).RLock"] = func(fr *frame, a []value) value { mutexRLock(ptrArg(a[0]), "RWMutex.RLock in "+shortName(callerName(fr))); return nil }
-	intrinsics["(*sync.RWMutex).RUnlock"] = func(fr *frame, a []value) value { mutexRUnlock(ptrArg(a[0]), "RWMutex.RUnlock in "+shortName(callerName(fr))); return nil }
+	intrinsics["(*sync.RWMutex).Lock"] = func(fr *frame, a []value) value {
+		mutexLock(ptrArg(a[0]), "RWMutex.Lock in "+shortName(callerName(fr)))
+		return nil
+	}
+	intrinsics["(*sync.RWMutex).Unlock"] = func(fr *frame, a []value) value {
+		mutexUnlock(ptrArg(a[0]), "RWMutex.Unlock in "+shortName(callerName(fr)))
+		return nil
+	}
+	intrinsics["(*sync.RWMutex).RLock"] = func(fr *frame, a []value) value {
+		mutexRLock(ptrArg(a[0]), "RWMutex.RLock in "+shortName(callerName(fr)))
+		return nil
+	}
+	intrinsics["(*sync.RWMutex).RUnlock"] = func(fr *frame, a []value) value {
+		mutexRUnlock(ptrArg(a[0]), "RWMutex.RUnlock in "+shortName(callerName(fr)))
+		return nil
+	}
 
 	intrinsics["(*sync.WaitGroup).Add"] = func(fr *frame, a []value) value {
 		p := ptrArg(a[0])
@@ -665,7 +683,9 @@ func init() {
 	}
 	intrinsics["internal/bytealg.CountString"] = func(fr *frame, a []value) value { return countByte(strBytes(a[0]), a[1]) }
 	intrinsics["internal/bytealg.Count"] = func(fr *frame, a []value) value { return countByte(a[0].([]value), a[1]) }
-	intrinsics["internal/bytealg.Equal"] = func(fr *frame, a []value) value { return truth(strEq(mkStr(a[0].([]value)), mkStr(a[1].([]value))), "bytes.Equal") }
+	intrinsics["internal/bytealg.Equal"] = func(fr *frame, a []value) value {
+		return truth(strEq(mkStr(a[0].([]value)), mkStr(a[1].([]value))), "bytes.Equal")
+	}
 	intrinsics["bytes.Equal"] = intrinsics["internal/bytealg.Equal"]
 	intrinsics["internal/bytealg.Compare"] = func(fr *frame, a []value) value {
 		x, y := mkStr(a[0].([]value)), mkStr(a[1].([]value))
